@@ -144,4 +144,11 @@ P['c_grandassign'] = prog([('p', [('a', F), ('b', F)],
 P['c_statecls'] = prog([('mkcnt', [('inc', F)], ('lambda', [], B('+', ('self',), V('inc')))),
                         ('dsp', [('a', F)], B('+', ('callv', V('c'), []), a))], globals_=[('c', C('mkcnt', N(0.25)))], globals_last=True)
 
+# generated argument-passing programs (tools/gen_calls.py): g_000 .. g_047, also rendered to corpus/ga_NNN.mmm for the other checks
+import os as _os
+import sys as _sys
+_sys.path.insert(0, _os.path.join(_os.path.dirname(_os.path.dirname(_os.path.abspath(__file__))), 'tools'))
+import gen_calls as _gen_calls
+P.update(_gen_calls.programs())
+
 PROGRAMS = P
